@@ -106,6 +106,11 @@ func Discharge(s *Session, want func(*Oblig) bool, cfg SolverCfg) {
 			countWin(ob.Solver)
 			continue
 		}
+		if ob.Cover && r != "unsat" && !cfg.Thorough {
+			// a cover check that is not refuted is inconclusive, never an alarm
+			ob.Result = "inconclusive"
+			continue
+		}
 		// second opinion: race z3-new and cvc5 on a standalone query
 		wg.Add(1)
 		go func(ob *Oblig) {
